@@ -236,6 +236,14 @@ class SymExec:
                         c = sp.true if fv else sp.false
                     elif hasattr(c, "xreplace") and fc in getattr(c, "atoms", lambda *a: set())(type(fc)):
                         c = c.xreplace({fc: sp.true if fv else sp.false})
+                # a condition this path has already decided (e.g. a flag tested by two conditional expressions)
+                for c0, pol0, _ in l.conds:
+                    if c0 == c:
+                        c = sp.true if pol0 else sp.false
+                        break
+                    if isinstance(c0, sp.Basic) and isinstance(c, sp.Basic) and c0 == sp.Not(c):
+                        c = sp.false if pol0 else sp.true
+                        break
                 if c is sp.true:
                     out += self._block([l], s["th"], fn)
                     continue
@@ -317,11 +325,25 @@ class SymExec:
                 raise AnalysisBroken("decision tree of %s too large" % fn["full"])
         return leaves
 
+    @staticmethod
+    def _as_cond(e):
+        """The conditional expression behind casts and copy constructions, or None."""
+        e = strip_casts(e)
+        while e is not None and e.get("k") == "Ctor" and len(e.get("a", [])) == 1:
+            e = strip_casts(e["a"][0])
+        return e if e is not None and e.get("k") == "Cond" else None
+
     def _decl(self, leaf, d, fn):
         key = ("l", d["id"])
         init = d.get("init")
         if init is None:
             return [leaf]
+        ce = self._as_cond(init)
+        if ce is not None:
+            # T x = c ? a : b   is   if (c) T x = a; else T x = b;   (the same forking as for an if statement)
+            th = {"k": "Decl", "l": d.get("l"), "d": [dict(d, init=ce["a"])]}
+            el = {"k": "Decl", "l": d.get("l"), "d": [dict(d, init=ce["b"])]}
+            return self._block([leaf], {"k": "If", "l": ce.get("l"), "c": ce["c"], "th": th, "el": el}, fn)
         ie = strip_casts(init)
         if ie.get("k") == "Ctor" and self._is_vec_type(ie.get("t")):
             if not ie["a"]:
@@ -350,6 +372,11 @@ class SymExec:
     def _exprstmt(self, leaf, s, fn):
         e = strip_casts(s)
         k = e.get("k")
+        if k == "Bin" and e["op"] == "=" and self._as_cond(e["b"]) is not None:
+            ce = self._as_cond(e["b"])
+            th = dict(e, b=ce["a"])
+            el = dict(e, b=ce["b"])
+            return self._block([leaf], {"k": "If", "l": ce.get("l"), "c": ce["c"], "th": th, "el": el}, fn)
         if k == "Bin" and e["op"] in ("=", "+=", "-=", "*=", "/="):
             outs = []
             for l2 in self._fork_nested([leaf], e["b"], fn):
